@@ -465,6 +465,17 @@ def run_workers(script: str, jobs: List[Any], chunk: int = 25, timeout: int = 60
             for j in ch:
                 out_l.extend(one([j]))
             return out_l
+        if rc == 124:     # a single job timed out: the machine may just be overloaded — one generous retry
+            rc2, out2, err2 = run([PY, os.path.join(VERIF, "tools", script)], timeout=timeout * 3, env=env,
+                                  input=json.dumps(ch), cwd=VERIF)
+            if rc2 == 0:
+                try:
+                    res = json.loads(out2)
+                    if isinstance(res, list) and len(res) == 1:
+                        return res
+                except Exception:
+                    pass
+            rc, err = rc2, err2
         return [{"worker_error": f"rc={rc} {err[-1500:]}"}]
 
     results: List[Any] = []
